@@ -204,6 +204,79 @@ theorem issued_cert_decodes_to_request (cfg : Config) (i : CertInputs) (sign : S
           simp only [hs] at h
           exact ⟨sig, by cases h; rfl, cert_decodes_to_request i hinv hnp' hc hsize⟩
 
+/-- **the returned `Certificate` reports what its DER encodes**: its `params()` are the
+    parameters it was generated from, its DER is the signed to-be-signed certificate of those
+    parameters, and `key_identifier()` is the subjectKeyIdentifier an RFC 5280 reader finds in
+    that DER wherever one is present (every CA and `ExplicitNoCa` certificate) -/
+theorem certificate_reports_what_it_encodes (cfg : Config) (i : CertInputs) (sign : Signer)
+    (c : Certificate)
+    (h : issueCertificate cfg i.H i.p i.subject i.issuer sign = .ok c)
+    (hc : ∀ e ∈ i.p.customExts, e.oid ∉ interpretedOids)
+    (hsize : (encode (tbsCertificate i.H i.p i.subject i.issuer)).length < 256 ^ 126) :
+    c.params = i.p ∧
+    (∃ sig, c.der = encode (.seq [tbsCertificate i.H i.p i.subject i.issuer,
+        algIdent i.issuer.key.alg, .bitStringOctets sig])) ∧
+    c02ObjectClauses (encode (tbsCertificate i.H i.p i.subject i.issuer)) (c.keyIdentifier i.H) = [] := by
+  unfold issueCertificate at h
+  cases ht : issueCert cfg i.H i.p i.subject i.issuer sign with
+  | err e => simp [ht] at h
+  | panic s => simp [ht] at h
+  | ok t =>
+    simp only [ht] at h
+    injection h with h
+    subst h
+    obtain ⟨sig, rfl, _⟩ := issued_cert_decodes_to_request cfg i sign t ht hc hsize
+    refine ⟨rfl, ⟨sig, rfl⟩, ?_⟩
+    have hinv : certInvalid i.p i.issuer = none := by
+      unfold issueCert at ht
+      cases hinv : certInvalid i.p i.issuer with
+      | some e => simp [hinv] at ht
+      | none => rfl
+    have hnp : certPanics i.p i.issuer = false := by
+      unfold issueCert at ht
+      simp only [hinv] at ht
+      split at ht
+      · cases ht
+      · split at ht
+        · cases ht
+        · rename_i hnp; simpa using hnp
+    unfold c02ObjectClauses
+    rw [cert_decodes_to_record i hinv hnp hc hsize]
+    simp only [Certificate.keyIdentifier, Proofs.CertDecode.modelTbs, clause]
+    have : ((Proofs.CertDecode.modelExts i).filter (fun e => e.oid == oidSki)).all
+        (fun e => e.value == .ski (i.p.keyIdMethod.derive i.H (spkiDer i.subject))) = true := by
+      simp only [List.all_eq_true, List.mem_filter, and_imp]
+      intro e he hoid
+      unfold Proofs.CertDecode.modelExts at he
+      simp only [List.mem_append, List.mem_map] at he
+      rcases he with ((((((( he | he) | he) | he) | he) | he) | he) | he)
+      · split at he <;> simp at he; subst he; simp [oidAki, oidSki] at hoid
+      · split at he <;> simp at he; subst he; simp [oidSan, oidSki] at hoid
+      · split at he <;> simp at he; subst he; simp [oidKeyUsage, oidSki] at hoid
+      · split at he <;> simp at he; subst he; simp [oidEku, oidSki] at hoid
+      · split at he
+        · simp at he
+        · split at he <;> simp at he; subst he; simp [oidNameConstraints, oidSki] at hoid
+      · split at he <;> simp at he; subst he; simp [oidCrlDps, oidSki] at hoid
+      · split at he
+        · simp only [List.mem_cons, List.not_mem_nil, or_false] at he
+          rcases he with rfl | rfl
+          · simp
+          · simp [oidBasicConstraints, oidSki] at hoid
+        · simp only [List.mem_cons, List.not_mem_nil, or_false] at he
+          rcases he with rfl | rfl
+          · simp
+          · simp [oidBasicConstraints, oidSki] at hoid
+        · simp at he
+      · obtain ⟨x, hx, rfl⟩ := he
+        exfalso
+        have hk := hc x hx
+        simp only [beq_iff_eq] at hoid
+        apply hk
+        rw [hoid]
+        decide
+    simp [this]
+
 /-! non-vacuity: the case the hand-maintained condition used to miss -/
 example : shouldWriteExts { (default : CertParams) with keyUsages := [.digitalSignature] } = true := by
   decide
